@@ -24,6 +24,8 @@ def run(model, rep, tier):
              'emits both captured strings whole')
     tsrules.attribution(ctx, rep, 'C13.R3')
     r3_formatter_side(ctx, rep)
+    from . import c04
+    c04.wrapper_forwards(ctx, rep, 'C13.R3')
     rep.rule('C13.R6', 'with --buffer, from startTest until the first reported failure, error or '
              'skip of a test (in particular across passing subtests) both std streams are the '
              'capture buffers, so what a passing test writes never reaches the real streams')
